@@ -4,8 +4,17 @@
    [data_file], [all_fs_ok], [unique_paths] are file-system facts (f is not a sidecar,
    a path is a file or a directory, paths are unique); [at_most_one_applicable] is the
    property's own "at most one such file per directory".
-   group_init true  = BidsFileGroup.__init__ as it is now (after the fix: commit for C16-F1);
-   group_init false = the constructor before that commit (part B, record of the repaired defect). *)
+   group_init true  = BidsFileGroup.__init__ as it is in /repo now (since fix commit be9bad3, which repaired
+                      finding C16-F1; the harness default VERIF_C16_FIXED=1 runs this mode);
+   group_init false = the behaviour before fix commit be9bad3 (part B, record of the repaired defect only).
+   What is proved / by construction / tested:
+     - chain, applicability, merge, override, walk, excluded directories, root independence: proved for all
+       inputs against declarative specifications (applicableb, strict depth order, filter of the full walk);
+     - C16_dataset_issues, C16_cli_exit_iff and the nothing-skipped corollaries: the driver is a structural
+       transcription (a loop that concatenates, `int(bool(issues))`), so these hold essentially BY CONSTRUCTION
+       of the model; what ties that structure to the code is the correspondence run (testing): the issue
+       sequence and exit status of BidsDataset.validate / hed_validator against per-file validation;
+     - the validators themselves are parameters (properties C07/C08). *)
 From Coq Require Import List NArith Sorting.Sorted.
 From HV Require Import Base.Res Base.Str Model.Bids Proofs.BidsProofs.
 Import ListNotations.
@@ -30,16 +39,20 @@ Theorem C16_chain_unique : forall sc f l,
 Proof. exact chain_unique. Qed.
 Print Assumptions C16_chain_unique.
 
-(* merged_is_fold, FULL STATEMENT, every tree: the sidecar attached to a data file is the
-   top-down fold of the per-key update along the file's own chain ... *)
+(* merged_is_fold, code-relative form, every tree, no side condition: the sidecar attached to a
+   data file is the top-down fold of the per-key update along THE CHAIN THE CODE COMPUTES for that
+   file ([spec_merged] folds over [chain] = get_sidecars_from_path).  The declarative content of the
+   clause is the next theorem, which carries the statement's own side conditions. *)
 Theorem C16_merged_is_fold : forall excl sfx t g f m,
   group_init true excl sfx t = Ok g -> In (f, m) (g_data g) ->
   m = spec_merged (g_sidecars g) f.
 Proof. exact merged_is_fold. Qed.
 Print Assumptions C16_merged_is_fold.
 
-(* ... that is, under the at-most-one-per-directory hypothesis, the merge of the applicable
-   sidecars in order of depth (None when there is none). *)
+(* merged_is_fold, DECLARATIVE FORM (the property's clause): under the statement's
+   at-most-one-per-directory hypothesis (and f being an events file of a sane file system), the
+   attached sidecar is the merge, in order of depth, of exactly the applicable sidecars, for ANY
+   list l that enumerates them by strictly increasing depth (None when there is none). *)
 Theorem C16_merged_is_fold_applicable : forall excl sfx t g f m l,
   group_init true excl sfx t = Ok g -> In (f, m) (g_data g) ->
   data_file (g_sidecars g) f -> at_most_one_applicable (g_sidecars g) f ->
@@ -47,6 +60,19 @@ Theorem C16_merged_is_fold_applicable : forall excl sfx t g f m l,
   m = if is_empty l then None else Some (merge_dicts (map raw_of l)).
 Proof. exact merged_is_fold_applicable. Qed.
 Print Assumptions C16_merged_is_fold_applicable.
+
+(* Outside the statement (two applicable sidecars in one directory violate BIDS and the property's
+   hypothesis): without at-most-one the chain still holds only applicable sidecars, at most one per
+   depth.  WHICH of several candidates is taken (the first in listing order) is not a theorem; it is
+   compared with the implementation in the correspondence run only. *)
+Theorem C16_chain_only_applicable : forall sc f s,
+  data_file sc f -> In s (chain sc f) -> In s sc /\ applicableb s f = true.
+Proof. exact chain_only_applicable. Qed.
+Print Assumptions C16_chain_only_applicable.
+
+Theorem C16_chain_one_per_depth : forall sc obj, StronglySorted ltd (chain sc obj).
+Proof. exact chain_sorted. Qed.
+Print Assumptions C16_chain_one_per_depth.
 
 (* The merged contents of a sidecar file itself run along the sidecars applicable to it
    (itself included), in strictly increasing depth; its own chain is never empty. *)
@@ -97,6 +123,31 @@ Theorem C16_group_files_not_excluded : forall fixed excl sfx t g,
 Proof. exact group_files_not_excluded. Qed.
 Print Assumptions C16_group_files_not_excluded.
 
+(* The dataset root's own path is no input: os.walk started at a root given by ANY absolute
+   components (its own name or a component above it may be an excluded name) lists the relative
+   walk with the root in front; pruning concerns directories BELOW the root only.  The applicability
+   test and the chain computed on real paths are those computed on paths relative to the root. *)
+Theorem C16_os_walk_is_walk : forall excl rootp t,
+  os_walk excl rootp t = map (fun e => (rootp ++ fst e, snd e)) (walk excl t).
+Proof. exact os_walk_is_walk. Qed.
+Print Assumptions C16_os_walk_is_walk.
+
+Theorem C16_os_walk_root_independent : forall excl rootp t,
+  map (fun e => (skipn (List.length rootp) (fst e), snd e)) (os_walk excl rootp t) = walk excl t.
+Proof. exact os_walk_root_independent. Qed.
+Print Assumptions C16_os_walk_root_independent.
+
+Theorem C16_is_sidecar_for_root_independent : forall rootp s x,
+  is_sidecar_for (abs_file rootp s) (abs_file rootp x) = is_sidecar_for s x.
+Proof. exact is_sidecar_for_abs. Qed.
+Print Assumptions C16_is_sidecar_for_root_independent.
+
+Theorem C16_chain_root_independent : forall rootp sc obj,
+  chain_aux (map (abs_file rootp) sc) (abs_file rootp obj) rootp (b_dir obj)
+  = map (abs_file rootp) (chain sc obj).
+Proof. exact chain_root_independent. Qed.
+Print Assumptions C16_chain_root_independent.
+
 (* dataset_issues: dataset validation is exactly the concatenation of the validations of
    each merged sidecar and of each events file with the fold along ITS OWN chain (for any
    validators vs, vf; no side condition), and the command line exits non-zero iff that
@@ -109,6 +160,32 @@ Theorem C16_dataset_issues : forall (issue : Type) vs vf excl sfx t g,
 Proof. exact dataset_issues. Qed.
 Print Assumptions C16_dataset_issues.
 
+(* Nothing is skipped and nothing is added, whatever the contents of a merged sidecar (no HED key at
+   all, misplaced HED keys, the empty object, ...): every issue of every sidecar of the group and of
+   every events file is in the dataset's list, and every issue of the list comes from one of them. *)
+Theorem C16_every_sidecar_validated : forall (issue : Type) vs vf fixed excl sfx t g s i,
+  group_init fixed excl sfx t = Ok g -> In s (g_sidecars g) ->
+  In i (vs (b_name s) (merge_dicts (map raw_of (own_chain (g_sidecars g) s)))) ->
+  In i (dataset_validate issue vs vf g).
+Proof. exact every_sidecar_validated. Qed.
+Print Assumptions C16_every_sidecar_validated.
+
+Theorem C16_every_data_file_validated : forall (issue : Type) vs vf excl sfx t g f m i,
+  group_init true excl sfx t = Ok g -> In (f, m) (g_data g) ->
+  In i (vf f (spec_merged (g_sidecars g) f)) ->
+  In i (dataset_validate issue vs vf g).
+Proof. exact every_data_file_validated. Qed.
+Print Assumptions C16_every_data_file_validated.
+
+Theorem C16_dataset_issue_origin : forall (issue : Type) vs vf excl sfx t g i,
+  group_init true excl sfx t = Ok g -> In i (dataset_validate issue vs vf g) ->
+  (exists s, In s (g_sidecars g) /\
+             In i (vs (b_name s) (merge_dicts (map raw_of (own_chain (g_sidecars g) s))))) \/
+  (exists f m, In (f, m) (g_data g) /\ In i (vf f (spec_merged (g_sidecars g) f))).
+Proof. exact dataset_issue_origin. Qed.
+Print Assumptions C16_dataset_issue_origin.
+
+(* exit status: `return int(bool(issue_list))` transcribed; by construction of the model *)
 Theorem C16_cli_exit_iff : forall (issue : Type) vs vf g,
   cli_exit issue vs vf g <> 0 <-> dataset_validate issue vs vf g <> [].
 Proof. exact cli_exit_iff. Qed.
@@ -127,8 +204,8 @@ Example C16_nonvacuous :
   spec_merged (g_sidecars ok_group) ok_file = Some [(0, 2); (1, 1); (2, 1)].
 Proof. exact ok_example. Qed.
 
-(* The tree that refuted the statement before the fix (part B), on the repaired
-   constructor: the events file inherits column r (key 1) of the root sidecar. *)
+(* The tree that refuted the statement before fix commit be9bad3 (part B), on the constructor as
+   it is now: the events file inherits column r (key 1) of the root sidecar. *)
 Example C16_old_witness_now_inherits :
   group_init true excl_default sfx_events wit_tree = Ok wit_group_fixed /\
   g_data wit_group_fixed = [(wit_file, Some [(0, 2); (1, 1); (2, 1)])] /\
@@ -138,9 +215,9 @@ Example C16_old_witness_now_inherits :
 Proof. exact wit_fixed_example. Qed.
 
 (* ===================================================================== B. record of the repaired defect C16-F1
-   (group_init false = the constructor before the fix: commit) *)
+   (group_init false = the behaviour BEFORE fix commit be9bad3; none of this is true of /repo any more) *)
 
-(* What the old constructor attached to every data file: the contents of the DEEPEST sidecar
+(* What the constructor before fix commit be9bad3 attached to every data file: the contents of the DEEPEST sidecar
    of its chain, merged along that sidecar's own chain. *)
 Theorem C16_before_fix_merged_code : forall excl sfx t g f m,
   group_init false excl sfx t = Ok g -> unique_paths (g_sidecars g) -> In (f, m) (g_data g) ->
@@ -148,7 +225,7 @@ Theorem C16_before_fix_merged_code : forall excl sfx t g f m,
 Proof. exact group_data_merged. Qed.
 Print Assumptions C16_before_fix_merged_code.
 
-(* merged_is_fold was FALSE of the old constructor: root task-rest_events.json,
+(* merged_is_fold was FALSE of the constructor before fix commit be9bad3: root task-rest_events.json,
    sub-01/sub-01_events.json, sub-01/eeg/sub-01_task-rest_events.tsv -- column r of the
    root sidecar was lost. *)
 Theorem C16_before_fix_merged_is_fold_refuted :
